@@ -53,4 +53,10 @@ PROPS = {
         "assumptions": [DOMAIN, "the sampling oracle needs sample points farther from every input boundary than the snapping tolerance: quarter-lattice points are at least 1/(4·edge length) lattice units away, the tolerance is below 2^-12 lattice units for every generated offset/scale"],
         "min_nontrivial": {"quick": 1000, "thorough": 10000},
     },
+    "C12": {
+        "budget": {"quick": 25000, "thorough": 600000},
+        "rule": "per case one generated geometry of any type (half of them polygons with holes / tangent holes / multipolygons, 1 in 10 a sliver of height 1 and width up to 2^20) with lattice offset/scale: interior_point must be None exactly for empty input, otherwise a point whose exact location (f64 result converted exactly to a rational) is not the exterior, and the interior for areal input, and must not panic; closest_point to three query points (vertices, lattice points on edges, neighbours, outside points): Intersection iff the exact location of the query is not exterior (and then equal to the query within 8u), otherwise a point whose exact distance to g is <= 16u·(M+extent+d) and whose distance to the query equals the exact minimum distance within the same tolerance; Indeterminate only for empty input; enum and concrete type agree. One case in four feeds 2-7 lattice segments to sweep::Intersections and compares with brute-force line_intersection (observe-only: counted, not judged). Non-trivial = geometry with linework; distinct by (geometry, query) digest.",
+        "assumptions": [DOMAIN, "for lineal input interior_point is only required to intersect the geometry (the implementation documents that it returns a vertex); 'strictly inside' is judged for areal input as the statement's 'in particular' clause says"],
+        "min_nontrivial": {"quick": 1000, "thorough": 10000},
+    },
 }
